@@ -1,6 +1,38 @@
--- shard 12 of the closeness / tick-gap sweep (C06 (c), (e)): |tick| in [393216, 425984)
+-- shard 12 of the closeness / tick-gap sweep (C06 (c), (e)): |tick| in [393216, 425984), 16 blocks of 2^11
 import Proofs.Lemmas.ClosePred
 namespace Demeter.TickClose
 set_option maxRecDepth 100000 in
-theorem close_shard_12 : chkN closeSweepPred 393216 shardBits = true := by decide +kernel
+theorem close_blk_393216 : chkN closeSweepPred 393216 11 = true := by decide +kernel
+set_option maxRecDepth 100000 in
+theorem close_blk_395264 : chkN closeSweepPred 395264 11 = true := by decide +kernel
+set_option maxRecDepth 100000 in
+theorem close_blk_397312 : chkN closeSweepPred 397312 11 = true := by decide +kernel
+set_option maxRecDepth 100000 in
+theorem close_blk_399360 : chkN closeSweepPred 399360 11 = true := by decide +kernel
+set_option maxRecDepth 100000 in
+theorem close_blk_401408 : chkN closeSweepPred 401408 11 = true := by decide +kernel
+set_option maxRecDepth 100000 in
+theorem close_blk_403456 : chkN closeSweepPred 403456 11 = true := by decide +kernel
+set_option maxRecDepth 100000 in
+theorem close_blk_405504 : chkN closeSweepPred 405504 11 = true := by decide +kernel
+set_option maxRecDepth 100000 in
+theorem close_blk_407552 : chkN closeSweepPred 407552 11 = true := by decide +kernel
+set_option maxRecDepth 100000 in
+theorem close_blk_409600 : chkN closeSweepPred 409600 11 = true := by decide +kernel
+set_option maxRecDepth 100000 in
+theorem close_blk_411648 : chkN closeSweepPred 411648 11 = true := by decide +kernel
+set_option maxRecDepth 100000 in
+theorem close_blk_413696 : chkN closeSweepPred 413696 11 = true := by decide +kernel
+set_option maxRecDepth 100000 in
+theorem close_blk_415744 : chkN closeSweepPred 415744 11 = true := by decide +kernel
+set_option maxRecDepth 100000 in
+theorem close_blk_417792 : chkN closeSweepPred 417792 11 = true := by decide +kernel
+set_option maxRecDepth 100000 in
+theorem close_blk_419840 : chkN closeSweepPred 419840 11 = true := by decide +kernel
+set_option maxRecDepth 100000 in
+theorem close_blk_421888 : chkN closeSweepPred 421888 11 = true := by decide +kernel
+set_option maxRecDepth 100000 in
+theorem close_blk_423936 : chkN closeSweepPred 423936 11 = true := by decide +kernel
+theorem close_shard_12 : chkN closeSweepPred 393216 shardBits = true :=
+  (chkN_join _ 393216 14 (chkN_join _ 393216 13 (chkN_join _ 393216 12 (chkN_join _ 393216 11 close_blk_393216 close_blk_395264) (chkN_join _ 397312 11 close_blk_397312 close_blk_399360)) (chkN_join _ 401408 12 (chkN_join _ 401408 11 close_blk_401408 close_blk_403456) (chkN_join _ 405504 11 close_blk_405504 close_blk_407552))) (chkN_join _ 409600 13 (chkN_join _ 409600 12 (chkN_join _ 409600 11 close_blk_409600 close_blk_411648) (chkN_join _ 413696 11 close_blk_413696 close_blk_415744)) (chkN_join _ 417792 12 (chkN_join _ 417792 11 close_blk_417792 close_blk_419840) (chkN_join _ 421888 11 close_blk_421888 close_blk_423936))))
 end Demeter.TickClose
